@@ -70,6 +70,14 @@ func c03Services() []c03Service {
 				m := "Subject: b" + t + "\r\n\r\nchunk of " + t + "\r\n"
 				return lines("EHLO "+t+"\r\n", "MAIL FROM:<"+t+"@c>\r\n", fmt.Sprintf("BDAT %d LAST\r\n%s", len(m), m))
 			}},
+			// a message that is begun and abandoned: a non-final chunk / an unterminated DATA body, then the client leaves
+			{"bdat-abandoned", func(t string) [][]byte {
+				m := "Subject: a" + t + "\r\n\r\nabandoned chunk of " + t + " "
+				return lines("EHLO "+t+"\r\n", "MAIL FROM:<"+t+"@d>\r\nRCPT TO:<y@b>\r\n", fmt.Sprintf("BDAT %d\r\n%s", len(m), m))
+			}},
+			{"data-abandoned", func(t string) [][]byte {
+				return lines("EHLO "+t+"\r\n", "MAIL FROM:<"+t+"@e>\r\nRCPT TO:<z@b>\r\n", "DATA\r\nSubject: u"+t+"\r\n\r\nunterminated body of "+t+"\r\n")
+			}},
 		}},
 		{svc: "ldap", scripts: []script{
 			{"bind-ok", func(t string) [][]byte {
@@ -354,37 +362,49 @@ func runC03(c *core.Ctx) {
 			for b := 0; b < lim; b++ {
 				for d := 0; d < lim; d++ {
 					a, b, d := a, b, d
-					c.Case(fmt.Sprintf("%s/triple/%d,%d,%d", sv.svc, a, b, d), func() {
-						mk := func() []*c03Sess {
-							ss := []*c03Sess{mkSess(sv, a, 1), mkSess(sv, b, 2), mkSess(sv, d, 3)}
-							for _, s := range ss {
+					for part := 0; part < 3; part++ {
+						part := part
+						if !c.Thorough() && part > 0 {
+							continue
+						}
+						c.Case(fmt.Sprintf("%s/triple/%d,%d,%d/first%d", sv.svc, a, b, d, part), func() {
+							mk := func() []*c03Sess {
+								ss := []*c03Sess{mkSess(sv, a, 1), mkSess(sv, b, 2), mkSess(sv, d, 3)}
+								for _, s := range ss {
+									s.steps = s.steps[:2]
+								}
+								return ss
+							}
+							// solo baselines for truncated scripts
+							soloT := func(si, k int) obs {
+								key := fmt.Sprintf("T%d/%d", si, k)
+								if o, ok := soloCache[key]; ok {
+									return o
+								}
+								s := mkSess(sv, si, k)
 								s.steps = s.steps[:2]
+								got, _ := c03Run(c, sv, []*c03Sess{s}, make([]int, s.nsteps()))
+								soloCache[key] = got[k]
+								return got[k]
 							}
-							return ss
-						}
-						// solo baselines for truncated scripts
-						soloT := func(si, k int) obs {
-							key := fmt.Sprintf("T%d/%d", si, k)
-							if o, ok := soloCache[key]; ok {
-								return o
-							}
-							s := mkSess(sv, si, k)
-							s.steps = s.steps[:2]
-							got, _ := c03Run(c, sv, []*c03Sess{s}, make([]int, s.nsteps()))
-							soloCache[key] = got[k]
-							return got[k]
-						}
-						interleavings([]int{4, 4, 4}, func(order []int) {
-							// bound: at most 4 context switches beyond the minimum keeps the count manageable in quick
-							if !c.Thorough() && switches(order) > 6 {
-								return
-							}
-							got, all := c03Run(c, sv, mk(), order)
-							c.Count("executions", 1)
-							c03Check(c, sv, "interleaved3", []int{a, b, d}, []int{1, 2, 3}, got, all, soloT, fmt.Sprint(order))
-							c.Outcome(sv.svc, fmt.Sprint(got))
+							interleavings([]int{4, 4, 4}, func(order []int) {
+								// bound: at most 4 context switches beyond the minimum keeps the count manageable in quick
+								if !c.Thorough() && switches(order) > 6 {
+									return
+								}
+								if c.Thorough() && order[0] != part { // thorough: one case per first mover
+									return
+								}
+								if c.Stopping() {
+									return
+								}
+								got, all := c03Run(c, sv, mk(), order)
+								c.Count("executions", 1)
+								c03Check(c, sv, "interleaved3", []int{a, b, d}, []int{1, 2, 3}, got, all, soloT, fmt.Sprint(order))
+								c.Outcome(sv.svc, fmt.Sprint(got))
+							})
 						})
-					})
+					}
 				}
 			}
 		}
